@@ -38,7 +38,8 @@ def prop(ctx, case):
                  "probe": {"kind": "public_solve", "valid_candidate": out["valid"][0] if out["valid"] else None},
                  "observed": repr(exc), "signature": {"rule": "solve_raised", "classes": engine.classes_of(case["spec"])}}
             )
-        elif (sol is False or sol is None) and "unknown" in str(adapter.z3solver(h).check()):
+        elif (sol is False or sol is None) and str(adapter.z3solver(h).check()) != "unsat":
+            # only a definite 'unsat' is a verdict; anything else means z3 gave up on the first call
             ctx.inconclusive += 1  # z3 gave up (typically the quantified encoding of a concurrent buffer)
             ctx.event("public_solve_unknown")
         elif sol is False or sol is None:
